@@ -34,7 +34,7 @@ pub fn cases_for_leg(ctx: &Ctx, leg: &str) -> u64 {
         "asan" => ctx.cases(0, 400_000),
         "valgrind" => ctx.cases(0, 16_000),
         "miri" => ctx.cases(0, 192),
-        _ => ctx.cases(150_000, 6_000_000),
+        _ => ctx.cases(300_000, 6_000_000),
     }
 }
 
